@@ -34,6 +34,9 @@ NumICs(c)  == Cardinality({ x \in DOMAIN c : c[x] # NoIC })
 (*      time) or again an alias / negation (no initial condition), third a USE: u**2, -u**2, 2*u, u - v, -u, u * v,     *)
 (*      u / v (base of a power, after a unary minus, in a product, as divisor)                   *)
 (*      -> contains every pair (negated alias, square of it)                                     *)
+(*   C  one of the first two variables a quotient, the third  w = k : a divisor (or dividend)     *)
+(*      that is 0 at k = 0 only, under a quotient that is set aside or that the other variable    *)
+(*      reads                                                                                     *)
 MC_LineQuick(i, d, ic, a, c) ==
     \/ i <= 2
     \/ /\ i = 3 /\ ic = NoIC
@@ -42,6 +45,7 @@ MC_LineQuick(i, d, ic, a, c) ==
              /\ a[Vars[1]].kind \in {"neg", "negs", "negb", "alias", "palias"}
              /\ a[Vars[2]].kind \in {"const", "lag", "exo", "time", "neg", "alias"}
              /\ c[Vars[2]] = NoIC
+          \/ d.kind = "time" /\ "quo" \in KindsOf(a)       \* slice C, see above
 
 (* thorough: every system over 3 variables of the kinds of slice A (any initial conditions) and   *)
 (* every system over 3 variables of all kinds with at most one initial condition                  *)
